@@ -22,6 +22,8 @@ Inductive task :=
 | TAbortC (name : nat) (k : task)                              (* call the AbortHandle kept under [name] from inside a task *)
 | TBoth (tg1 : nat) (e1 : expr) (x1 : nat) (tg2 : nat) (e2 : expr) (x2 : nat) (k : task)
      (* let (x1, x2) = futures::join!(request(op1), request(op2)) *)
+| TBothL (tg1 : nat) (e1 : expr) (x1 : nat) (tg2 : nat) (e2 : expr) (x2 : nat) (k : task)
+     (* join!(legacy_capability.request(op1), ctx.request(op2)): the two APIs awaited together *)
 | TRace (tg1 : nat) (e1 : expr) (tg2 : nat) (e2 : expr) (x : nat) (k : task)
      (* x = select_biased! { a = request(op1) => a, b = request(op2) => b }; the loser is dropped *)
 | THost (names : list nat) (meff mev : nat) (main : task) (extra : list task) (k : task).
